@@ -1,19 +1,26 @@
 """C03 — check_connectivity guarantees a graph on which all geodesics are finite.
 
-proof  : coq/Conn_Model.v (is_connected as shipped, is_connected_fixed = connected.hpp after
-         fixes/F03_strong_connectivity.patch, find_neighbors = the doubling recursion over an abstract exact
-         k-NN search), coq/Conn_Spec.v (reach, strong connectivity, Warshall oracle, relabelling, geodesic
-         spec), coq/Conn_Proof*.v, coq/Properties_C03.v.
-tie    : (a) tapkee_internal::is_connected called directly on explicit graphs (small ones exhaustively,
-         random/structured ones up to N = 200): decision == extracted is_connected_fixed, decision ==
-         extracted strong_b (the spec), decision invariant under relabelling;
-         (b) find_neighbors(method, ..., k, check_connectivity = true) for all three methods over tie-free
-         integer point sets (1-D and 2-D/L1; uniform, clusters of unequal density, chains, outliers) and
+proof  : coq/Conn_Model.v (is_connected_fixed = connected.hpp as committed (fix F3, 78644c2): search from sample 0
+         over the lists, then over the reversed lists; is_connected = the old code; find_neighbors = the doubling
+         recursion of neighbors.hpp over an abstract exact k-NN search), coq/Conn_Spec.v (reach, strong
+         connectivity, Warshall oracle, relabelling, geodesic spec), coq/Conn_Proof*.v (incl. _Order: tie-free
+         order/method independence, _Dijkstra: link to C04's model of compute_shortest_distances_matrix, _Knn: link
+         to C02's specification), coq/Properties_C03.v.
+tie    : (a) tapkee_internal::is_connected called directly on explicit graphs — arbitrary Neighbors: lists of
+         different lengths, empty lists, repeats, self-loops (small ones exhaustively, random/structured ones up to
+         N = 200): decision == extracted strong_b (the spec), decision == extracted is_connected_fixed, decision
+         invariant under relabelling;
+         (b) find_neighbors(method, ..., k, check_connectivity = true) for all three methods over tie-free integer
+         point sets (1-D and 2-D/L1; uniform, clusters of unequal density, chains, outliers, geometric gaps) and
          their permutations: the returned graph must be strongly connected (extracted strong_b on the
          implementation's own output), k is raised only if the implementation's own k-graph is not strongly
-         connected, the number of neighbours must equal the model's (exact k-NN computed by the extracted
-         reference search) and must not depend on the order of the samples; the real
-         compute_shortest_distances_matrix must not contain DBL_MAX.
+         connected, the number of neighbours must equal the model's (exact k-NN by the extracted reference search),
+         number of neighbours AND neighbour sets must not depend on the order of the samples nor on the method; the
+         real compute_shortest_distances_matrix (both overloads) must not contain DBL_MAX;
+         (c) recursion replay: the lists find_neighbors(k_j, false) for every k_j = min(k*2^j, N-1) are fed as a
+         table to the extracted find_neighbors: it must stop at the same k_j as find_neighbors(k, true), whose
+         result must be that table entry (ties included, no reference search involved);
+         (d) thorough tier: the real Isomap on the same point sets returns finite coordinates.
 search : all 1-D integer point sets with <= 9 points from 0..12, k = 1..3, both orders, through the real
          find_neighbors, spec on its output (model-guided: sets whose exact k-graph is reachable from one end
          but not strongly connected go first); hits are confirmed on the real geodesic matrix / Isomap.
@@ -28,7 +35,11 @@ import vlib
 PROPERTY = "C03"
 
 TRUSTED = [
-    "hand-written model Conn_Model.v tied by differential testing of the decision (not a proof about the C++ text)",
+    "hand-written model Conn_Model.v tied by differential testing of the decision and of the doubling recursion "
+    "(input/output on explicit graphs and on the implementation's own lists; not a proof about the C++ text; the "
+    "internal stack/visited state is not observed)",
+    "cc_dijkstra_finite rests on property C04's theorems about Dijkstra_Model.v (its own tie is C04's check); "
+    "cc_from_c02 on C02's specification Knn_Spec.is_knn only",
     "the neighbour search itself is abstract in the theorems (exact k-NN lists = property C02 is a hypothesis); "
     "the harness uses tie-free point sets so that the exact k-NN graph is unique",
     "indices modelled as nat (negative / out-of-range entries are outside the theorems; wf is checked by the "
@@ -40,6 +51,7 @@ TRUSTED = [
 ]
 
 METHODS = {0: "brute", 1: "vptree", 2: "covertree"}
+MAX_CRASHES_PER_STREAM = 6
 SIG_F3 = "F3:is_connected-decides-reachability-from-sample-0-only"
 
 
@@ -50,7 +62,7 @@ def run_impl(ctx, exe, lines, timeout=600):
     results = [None] * len(lines)
     start = 0
     guard = 0
-    while start < len(lines) and guard < 50:
+    while start < len(lines) and guard < MAX_CRASHES_PER_STREAM:
         guard += 1
         r = ctx.run(exe, "\n".join(lines[start:]) + "\n", timeout=timeout)
         cur = None
@@ -78,7 +90,8 @@ def run_impl(ctx, exe, lines, timeout=600):
             start = cur + 1
     for i, x in enumerate(results):
         if x is None:
-            results[i] = {"crash": "no output for this case"}
+            # after MAX_CRASHES_PER_STREAM aborts the rest of the stream is not run (each abort costs a process)
+            results[i] = {"crash": "no output for this case", "skipped": guard >= MAX_CRASHES_PER_STREAM}
     return results
 
 
@@ -96,9 +109,14 @@ def crashed(x):
     return isinstance(x, dict)
 
 
+def skipped(x):
+    return isinstance(x, dict) and x.get("skipped", False)
+
+
 # ----------------------------------------------------------------------------- graphs
 def g_line(N, k, rows):
-    return "G %d %d %s" % (N, k, " ".join(str(v) for r in rows for v in r))
+    """explicit graph for is_connected; every list carries its own length (arbitrary Neighbors)"""
+    return "H %d %s" % (N, " ".join("%d %s" % (len(r), " ".join(map(str, r))) for r in rows))
 
 
 def s_line(rows):
@@ -124,7 +142,35 @@ def enum_knn_like(N, k):
         yield [list(r) for r in rows]
 
 
+def enum_ragged(N, maxlen):
+    """every N-tuple of lists of length 0..maxlen over 0..N-1 (lists of different lengths, empty lists)"""
+    row_choices = [list(r) for ln in range(maxlen + 1) for r in itertools.product(range(N), repeat=ln)]
+    for rows in itertools.product(row_choices, repeat=N):
+        yield [list(r) for r in rows]
+
+
+def make_ragged(rng, rows):
+    """lists of different lengths from a uniform graph: drop entries, append repeats / extra edges, empty a list"""
+    N = len(rows)
+    out = [list(r) for r in rows]
+    for _ in range(rng.randint(1, max(1, N // 2))):
+        v = rng.randrange(N)
+        c = rng.random()
+        if c < 0.35 and out[v]:
+            out[v].pop(rng.randrange(len(out[v])))
+        elif c < 0.7:
+            out[v].append(rng.randrange(N))
+        elif c < 0.85:
+            out[v] = out[v] + out[v]
+        else:
+            out[v] = []
+    return out
+
+
 def gen_graph(rng, kind, N, k):
+    if kind.startswith("ragged_"):
+        base = gen_graph(rng, kind[len("ragged_"):], N, k)
+        return None if base is None else make_ragged(rng, base)
     if kind == "uniform":
         return [[rng.randrange(N) for _ in range(k)] for _ in range(N)]
     if kind == "knnlike":
@@ -211,11 +257,14 @@ def eval_graphs(ctx, exe, mexe, graphs, stats, with_perm_rng=None):
             ctx.note("model could not parse: " + line[:80])
             continue
         shipped, fixed, wf, uni, strong, first = mo[1:7]
-        if wf != "1" or uni != "1":
+        if wf != "1":
             continue            # outside the property's domain (generators never produce this)
         stats["graphs"] += 1
+        stats["graphs_ragged"] += uni != "1"
         stats["strong"] += strong == "1"
         stats["first_not_strong"] += (first == "1" and strong == "0")
+        if skipped(ri):
+            continue
         if crashed(ri):
             ctx.violation(case, "is_connected aborts on a well-formed graph: " + str(ri["crash"])[:500])
             continue
@@ -331,24 +380,107 @@ def m_line(cmd, k, dim, pts):
     return "%s %d %d %d %s" % (cmd, k, dim, len(pts), " ".join(str(x) for p in pts for x in p[:dim]))
 
 
-def parse_F(tok):
-    """['F', N, len0, e.., len1, e.., ...] -> rows or None"""
+def parse_lists(tok, i):
+    """tok[i:] = N, len0, e.., len1, e.., ... -> (rows, next index) or (None, i)"""
     try:
-        if tok[0] != "F":
-            return None
-        N = int(tok[1])
-        rows, i = [], 2
+        N = int(tok[i])
+        if N < 0 or N > 100000:
+            return None, i
+        rows, i = [], i + 1
         for _ in range(N):
             ln = int(tok[i])
             if ln < 0 or ln > 100000:
-                return None
+                return None, i
             rows.append([int(x) for x in tok[i + 1:i + 1 + ln]])
             if len(rows[-1]) != ln:
-                return None
+                return None, i
             i += 1 + ln
-        return rows if i == len(tok) else None
+        return rows, i
+    except (ValueError, IndexError):
+        return None, i
+
+
+def parse_F(tok):
+    """['F', N, len0, e.., len1, e.., ...] -> rows or None"""
+    if not tok or tok[0] != "F":
+        return None
+    rows, i = parse_lists(tok, 1)
+    return rows if rows is not None and i == len(tok) else None
+
+
+def parse_X(tok):
+    """['X', <lists>, 'T', n, (k_j <lists>)*] -> (rows, [(k_j, rows_j)]) or None"""
+    try:
+        if not tok or tok[0] != "X":
+            return None
+        rows, i = parse_lists(tok, 1)
+        if rows is None or tok[i] != "T":
+            return None
+        n = int(tok[i + 1])
+        i += 2
+        table = []
+        for _ in range(n):
+            kj = int(tok[i])
+            rj, i = parse_lists(tok, i + 1)
+            if rj is None:
+                return None
+            table.append((kj, rj))
+        return (rows, table) if i == len(tok) else None
     except (ValueError, IndexError):
         return None
+
+
+def lists_body(rows):
+    return "%d %s" % (len(rows), " ".join("%d %s" % (len(r), " ".join(map(str, r))) for r in rows))
+
+
+def recursion_replay(ctx, exe, mexe, jobs, stats):
+    """The doubling recursion against the implementation's OWN lists: find_neighbors(k, true) and the lists
+    find_neighbors(k_j, false) for every k_j = min(k*2^j, N-1); the extracted find_neighbors (connected.hpp
+    model) run over that table must stop at the same k_j, and the result must be that k_j's lists.  Works with
+    ties (no reference search involved).  The VP-tree draws random vantage points, so with ties two calls may
+    legitimately return different lists: for it only tie-free jobs are compared."""
+    jobs = [j for j in jobs if j["method"] != 1 or tie_free(j["pts"], j["dim"])]
+    if not jobs:
+        return 0
+    lines = [p_line("X", j["method"], 0, j["k"], j["dim"], j["pts"]) for j in jobs]
+    impl = run_impl(ctx, exe, lines)
+    ml, mi = [], []
+    parsed = {}
+    for n, (j, ri) in enumerate(zip(jobs, impl)):
+        if skipped(ri):
+            continue
+        if crashed(ri):
+            ctx.violation(dict(j, kind="points"), "find_neighbors aborts / hangs on distinct samples: "
+                          + str(ri["crash"])[:500])
+            continue
+        px = parse_X(ri)
+        if px is None or any(v < 0 for r in px[0] for v in r) or any(v < 0 for _, g in px[1] for r in g for v in r):
+            ctx.violation(dict(j, kind="points"), "find_neighbors returned malformed neighbour lists: %s"
+                          % " ".join(ri)[:300])
+            continue
+        parsed[n] = px
+        ml.append("X %d %d T %d %s" % (j["k"], len(j["pts"]), len(px[1]),
+                                       " ".join("%d %s" % (kj, lists_body(g)) for kj, g in px[1])))
+        mi.append(n)
+    for n, mo in zip(mi, run_model(ctx, mexe, ml)):
+        j = jobs[n]
+        rows, table = parsed[n]
+        stats["recursion_replays"] += 1
+        if len(mo) != 2 or mo[0] != "X":
+            raise vlib.BuildError("model driver: unexpected answer %r" % (mo,))
+        len0 = len(rows[0]) if rows else -1
+        case = dict(j, kind="points")
+        if mo[1] != str(len0):
+            ctx.mismatch(case, "doubling recursion over the implementation's own lists (k_j = %s): implementation "
+                               "stops at %d neighbours, model of find_neighbors/is_connected at %s"
+                         % ([kj for kj, _ in table], len0, mo[1]))
+            continue
+        want = dict(table).get(len0)
+        if want is None or [sorted(r) for r in want] != [sorted(r) for r in rows]:
+            ctx.mismatch(case, "find_neighbors(k, true) returned lists that are not the lists of "
+                               "find_neighbors(%d, false)" % len0)
+    return len(jobs)
 
 
 def spec_points(ctx, exe, mexe, jobs, stats, check_model=True, check_geodesics=True):
@@ -361,6 +493,8 @@ def spec_points(ctx, exe, mexe, jobs, stats, check_model=True, check_geodesics=T
     rows_of, slines, sidx = [None] * len(jobs), [], []
     for n, (j, ri) in enumerate(zip(jobs, impl)):
         case = dict(j, kind="points")
+        if skipped(ri):
+            continue
         if crashed(ri):
             ctx.violation(case, "find_neighbors(check_connectivity = true) aborts / hangs on distinct samples: "
                           + str(ri["crash"])[:500])
@@ -435,12 +569,17 @@ def spec_points(ctx, exe, mexe, jobs, stats, check_model=True, check_geodesics=T
         for j, ri in zip(jobs, run_impl(ctx, exe, dl)):
             if crashed(ri):
                 continue    # already reported above if find_neighbors itself fails
-            if len(ri) == 4 and ri[0] == "D" and (ri[2] != "0" or ri[3] != "0"):
-                ctx.violation(dict(j, kind="points"),
-                              "compute_shortest_distances_matrix on the lists returned with check_connectivity = true "
-                              "has %s entries equal to DBL_MAX and %s non-finite entries" % (ri[2], ri[3]),
-                              signature=SIG_F3)
-            stats["geodesic_matrices"] += 1
+            if len(ri) == 5 and ri[0] == "D":
+                if ri[2] != "0" or ri[3] != "0" or ri[4] != "0":
+                    ctx.violation(dict(j, kind="points"),
+                                  "compute_shortest_distances_matrix on the lists returned with check_connectivity = "
+                                  "true has %s entries equal to DBL_MAX and %s non-finite entries (landmark overload, "
+                                  "landmarks 0,2,4,..: %s)" % (ri[2], ri[3], ri[4]), signature=SIG_F3)
+                stats["geodesic_matrices"] += 1
+            else:
+                ctx.violation(dict(j, kind="points"), "compute_shortest_distances_matrix gave no result: %s"
+                              % " ".join(ri)[:200])
+    spec_points.last_rows = rows_of
     return lens
 
 
@@ -465,16 +604,28 @@ def eval_points(ctx, exe, mexe, bases, rng, stats, nperm=2):
                              "perm_of_base": p})
             groups.append(g)
     lens = spec_points(ctx, exe, mexe, jobs, stats)
+    rows_of = spec_points.last_rows
     for g in groups:
         base = jobs[g[0]]
         for n in g[1:]:
             stats["point_perms"] += 1
+            pair = {"kind": "points_pair", "dim": base["dim"], "pts": base["pts"], "k": base["k"],
+                    "method": base["method"], "perm": jobs[n]["perm_of_base"]}
             if lens[g[0]] is not None and lens[n] is not None and lens[n] != lens[g[0]]:
-                ctx.violation({"kind": "points_pair", "dim": base["dim"], "pts": base["pts"], "k": base["k"],
-                               "method": base["method"], "perm": jobs[n]["perm_of_base"]},
+                ctx.violation(pair,
                               "the number of neighbours depends on the order of the samples: %d for pts, %d for the "
                               "same samples in the order perm (method %s)"
                               % (lens[g[0]], lens[n], METHODS[base["method"]]), signature=SIG_F3)
+            elif rows_of[g[0]] is not None and rows_of[n] is not None:
+                # cc_order_independent: on tie-free data the neighbour SETS are the renamed sets
+                p = jobs[n]["perm_of_base"]
+                a = [sorted(r) for r in rows_of[g[0]]]
+                b = [sorted(p[u] for u in rows_of[n][v]) for v in sorted(range(len(p)), key=lambda v: p[v])]
+                stats["edge_set_comparisons"] += 1
+                if a != b:
+                    ctx.violation(pair, "the neighbour lists returned with check_connectivity = true depend on the "
+                                        "order of the samples (tie-free data, method %s): not the same neighbour "
+                                        "sets after renaming" % METHODS[base["method"]])
     # across methods the exact k-NN graph of tie-free data is the same, so is the decision
     by_base = {}
     for g in groups:
@@ -485,7 +636,21 @@ def eval_points(ctx, exe, mexe, bases, rng, stats, nperm=2):
         if len(vals) > 1:
             ctx.mismatch({"kind": "points", "dim": key[0], "pts": list(key[1]), "k": key[2], "method": 0},
                          "the three neighbour methods disagree on the number of neighbours: %r" % (ml,))
-    return len(jobs)
+    # cc_method_independent: and the same neighbour sets
+    sets_by_base = {}
+    for g in groups:
+        j = jobs[g[0]]
+        if rows_of[g[0]] is not None:
+            sets_by_base.setdefault((j["dim"], tuple(j["pts"]), j["k"]), []).append(
+                (j["method"], [sorted(r) for r in rows_of[g[0]]]))
+    for key, ml in sets_by_base.items():
+        stats["method_set_comparisons"] += len(ml) - 1
+        if any(x[1] != ml[0][1] for x in ml[1:]):
+            ctx.mismatch({"kind": "points", "dim": key[0], "pts": list(key[1]), "k": key[2], "method": 0},
+                         "the neighbour methods return different neighbour sets on tie-free data (methods %r)"
+                         % ([x[0] for x in ml],))
+    nrec = recursion_replay(ctx, exe, mexe, jobs, stats)
+    return len(jobs) + nrec
 
 
 # ----------------------------------------------------------------------------- search phase
@@ -520,6 +685,9 @@ def search_small_sets(ctx, exe, mexe, stats, budget, rng):
     for i in range(0, len(jobs), 4000):
         spec_points(ctx, exe, mexe, jobs[i:i + 4000], stats, check_model=False, check_geodesics=(i == 0))
         n += len(jobs[i:i + 4000])
+        if i == 0:
+            # the recursion against the implementation's own lists, ties included (brute force is deterministic)
+            n += recursion_replay(ctx, exe, mexe, jobs[:400] + [dict(j, method=2) for j in jobs[:200]], stats)
         if ctx.has_violation() and i >= 4000:
             break
     stats["search_sets_run"] = n
@@ -542,6 +710,30 @@ def confirm_with_isomap(ctx, case, stats):
     ctx.note(txt)
     stats["isomap_confirmation"] = txt
     return txt
+
+
+def isomap_end_to_end(ctx, bases, stats):
+    """tapkee Isomap (check_connectivity default = true) on the generated point sets: expected to return finite
+    coordinates (counted in the evidence).  k < 3 is rejected by the library's own validation and skipped."""
+    try:
+        exe = ctx.cpp("harness/c03.cpp", name="c03_embed", defines=["C03_WITH_EMBED"], timeout=1500)
+    except vlib.BuildError as ex:
+        ctx.note("Isomap end-to-end build failed: " + str(ex)[-300:])
+        return 0
+    jobs = [{"dim": b["dim"], "pts": b["pts"], "k": b["k"], "method": m}
+            for i, b in enumerate(bases) if 3 <= b["k"] < len(b["pts"]) for m in (i % 3,)]
+    lines = [p_line("I", j["method"], 0, j["k"], j["dim"], j["pts"]) for j in jobs]
+    for j, ri in zip(jobs, run_impl(ctx, exe, lines, timeout=900)):
+        if skipped(ri):
+            continue
+        stats["isomap_runs"] += 1
+        if crashed(ri) or ri[:3] != ["I", "ok", "0"]:
+            # unreachability shows up as DBL_MAX in the geodesic matrix of the same job, which spec_points has
+            # already judged; any other Isomap failure is not this property's business: recorded, no verdict
+            stats["isomap_not_ok"] += 1
+            ctx.note("Isomap on %r k=%d method=%d: %s" % (j["pts"][:6], j["k"], j["method"],
+                                                           str(ri["crash"])[:200] if crashed(ri) else " ".join(ri)[:200]))
+    return len(jobs)
 
 
 def shrink_points(ctx, exe, mexe, case):
@@ -568,7 +760,8 @@ def shrink_points(ctx, exe, mexe, case):
 def new_stats():
     return {k: 0 for k in ("graphs", "strong", "first_not_strong", "spec_fail_graph", "graph_perms", "point_runs",
                            "raised", "spec_fail_points", "point_perms", "model_shipped_differs",
-                           "geodesic_matrices")}
+                           "geodesic_matrices", "isomap_runs", "isomap_not_ok", "graphs_ragged", "recursion_replays", "edge_set_comparisons",
+                           "method_set_comparisons")}
 
 
 def corpus_cases(ctx):
@@ -618,13 +811,17 @@ def run(ctx):
     for N, k in knn_like:
         for rows in enum_knn_like(N, k):
             small.append((N, k, rows))
+    for N, ml in [(2, 2), (3, 2)] + ([] if quick else [(4, 1)]):
+        for rows in enum_ragged(N, ml):
+            small.append((N, ml, rows))
     hist["graph_exhaustive"] = len(small)
     for i in range(0, len(small), 20000):
         n += eval_graphs(ctx, exe, mexe, small[i:i + 20000], stats,
                          with_perm_rng=rng if i == 0 else None)
     rnd = []
     nrand = 700 if quick else 6000
-    kinds = ["uniform", "knnlike", "oneway", "oneway", "cycle", "outlier"]
+    kinds = ["uniform", "knnlike", "oneway", "oneway", "cycle", "outlier",
+             "ragged_uniform", "ragged_knnlike", "ragged_oneway", "ragged_cycle"]
     while len(rnd) < nrand:
         kind = rng.choice(kinds)
         N = rng.choice([2, 3, 4, 5, 6, 7, 8, 10, 13, 20, 33, 50, 80, 120, 200])
@@ -656,6 +853,10 @@ def run(ctx):
         hist["points"][kind] = hist["points"].get(kind, 0) + 1
     for i in range(0, len(bases), 60):
         n += eval_points(ctx, exe, mexe, bases[i:i + 60], rng, stats, nperm=2)
+
+    # ---- end to end (thorough tier; tapkee.hpp takes minutes to compile): the real Isomap on the same data
+    if not quick:
+        n += isomap_end_to_end(ctx, bases[:150], stats)
 
     # ---- small 1-D lattice sets (model-guided); the full enumeration is the search phase
     budget = 1500 if quick else 60000
@@ -748,6 +949,7 @@ def replay(ctx, case):
             j = {"dim": case["dim"], "pts": v, "k": case["k"], "method": case.get("method", 0)}
             l = spec_points(ctx, exe, mexe, [j], stats, check_model=tie_free(v, case["dim"]))
             lens.append(l[0])
+            recursion_replay(ctx, exe, mexe, [j], stats)
             d = run_impl(ctx, exe, [p_line("D", j["method"], 0, j["k"], j["dim"], v)])[0]
             print("pts=%s k=%d method=%s -> neighbours %s ; geodesic matrix: %s" % (
                 v, case["k"], METHODS[j["method"]], l[0], d if crashed(d) else " ".join(d)))
